@@ -115,4 +115,94 @@ func runC08(c *run.Ctx) {
 			}
 		}
 	}
+	c08Staged(c)
+}
+
+// c08Staged: the type hierarchy GROWS between requests. A root is loaded with a schema in which one object type does not
+// yet implement the interface (nor belong to the union); requests are resolved (whatever they answer) so that everything
+// ggql derives lazily from the hierarchy exists; then `extend type X implements Animal` and `extend union Pet = X` arrive
+// as loads of their own (no new type comes with them), and the request is judged against the reference over the final schema.
+func c08Staged(c *run.Ctx) {
+	n := c.N(200, 8000)
+	for i := 0; i < n && !c.TooMany(); i++ {
+		r := c.Rand(3000000 + i)
+		full := gen.Menagerie(r)
+		for _, t := range full.Types {
+			if t.Kind == model.Object {
+				if f := t.Field("rival"); f != nil {
+					f.Type = model.Named("Animal") // no field may depend on the late implementer already being an Animal
+				}
+			}
+		}
+		impls := full.PossibleTypes("Animal")
+		x := impls[r.Intn(len(impls))]
+		stage1 := *full
+		stage1.Types = nil
+		for _, t := range full.Types {
+			cp := *t
+			if t.Name == x {
+				cp.Interfaces = nil
+			}
+			if t.Kind == model.Union {
+				cp.Members = nil
+				for _, m := range t.Members {
+					if m != x {
+						cp.Members = append(cp.Members, m)
+					}
+				}
+			}
+			stage1.Types = append(stage1.Types, &cp)
+		}
+		stage1.Reindex()
+		o := model.SDLOpts{}
+		exts := []string{
+			model.TypeSDL(&model.TypeDef{Kind: model.Object, Name: x, Interfaces: []string{"Animal"}}, o, true),
+			model.TypeSDL(&model.TypeDef{Kind: model.Union, Name: "Pet", Members: []string{x}}, o, true),
+		}
+		if r.Intn(2) == 0 {
+			exts[0], exts[1] = exts[1], exts[0]
+		}
+		g := gen.Graph(r, full, gen.GraphOpts{NullProb: 4, PerType: 2})
+		sdl1 := stage1.SDL(o)
+		h, err := back.BuildOpts("reflect", full, sdl1, g, back.Opts{TypedSlices: true})
+		if err != nil {
+			c.Violation("c08-schema-rejected", map[string]interface{}{"sdl": sdl1, "error": err.Error()})
+			continue
+		}
+		dc := gen.Doc(r, full, gen.DocOpts{Frags: true, Aliases: true, Abstract: true, Depth: 3 + r.Intn(2), MaxOps: 1})
+		text := dc.Doc.Print(model.LayoutN(i))
+		warm := func() {
+			run.Protect(func() { _ = h.Root.ResolveString(text, dc.OpName, copyVars(dc.Vars)) })
+			run.Protect(func() {
+				_ = h.Root.ResolveString(`{ pets { __typename name friend { __typename } } anyPet { __typename } a1 { __typename } a2 { __typename } grid { __typename } __type(name: "Animal") { possibleTypes { name } } }`, "", nil)
+			})
+		}
+		warm()
+		okLoads := true
+		for _, e := range exts {
+			var lerr error
+			pv, _ := run.Protect(func() { lerr = h.Root.ParseString(e) })
+			if pv != nil || lerr != nil {
+				c.Violation("c08-staged-extension-rejected", map[string]interface{}{"sdl": sdl1, "later_load": e, "error": fmt.Sprint(pv, lerr)})
+				okLoads = false
+				break
+			}
+			warm()
+		}
+		if !okLoads {
+			continue
+		}
+		exp := ref.Execute(full, dc.Doc, dc.OpName, dc.Vars, g, nil, ref.Flags{})
+		out := Do(h, Request{Text: text, OpName: dc.OpName, Vars: dc.Vars, Entry: i}, nil)
+		c.Eval("staged|"+sdl1+text, true)
+		c.Count("staged_hierarchy_documents", 1)
+		c.Bucket("doc_features", "hierarchy-extended-between-requests")
+		if i == 0 {
+			c.Sample(map[string]interface{}{"first_load": clip(sdl1, 600), "later_loads": exts, "document": text})
+		}
+		if diff := Compare(exp, out, CompareOpts{StripFragSeg: true}); diff != "" {
+			c.Violation("c08-staged-hierarchy", map[string]interface{}{"first_load": sdl1, "later_loads": exts, "late_implementer": x, "graph": describeGraph(g), "document": text,
+				"diff": diff, "expected": exp.Describe(), "observed": out.Describe()})
+		}
+	}
 }
